@@ -4,7 +4,7 @@
         sum_{i_0} ... sum_{i_{D-1}}  coef(pos0 + sum_d i_d*stride_d) * prod_d localbasis_d[i_d]
    for every number of dimensions and every order. *)
 From Coq Require Import ZArith List Bool Lia Field Ring Arith.
-From PS Require Import Arith EvalModel BSpline OFieldKit.
+From PS Require Import Arith EvalModel BSpline OFieldKit C01_Basis.
 Import ListNotations.
 Local Open Scope Z_scope.
 
@@ -27,6 +27,21 @@ Fixpoint block_sum (lbs : list (list K)) (ss : list Z) (pos : Z) (pr : K) : K :=
 
 Lemma lsum_ext f g lb : forall pos s, (forall l p, f l p = g l p) -> lsum f lb pos s = lsum g lb pos s.
 Proof. induction lb as [|l r IH]; intros pos s H; cbn [lsum]; [reflexivity|]. rewrite H, (IH _ _ H). reflexivity. Qed.
+
+(* all coefficients one: the block sum factorises into the product of the sums of the local bases *)
+Fixpoint prodsum (lbs : list (list K)) : K :=
+  match lbs with [] => one | lb :: r => mul (sumK lb) (prodsum r) end.
+Lemma lsum_factor (c0 : K) lb : forall pos s pr, lsum (fun l _ => mul (mul pr l) c0) lb pos s = mul pr (mul (sumK lb) c0).
+Proof. induction lb as [|l r IH]; intros pos s pr; cbn [lsum sumK]; [ring|]. rewrite IH. ring. Qed.
+Lemma block_sum_ones : (forall p, cf p = one) -> forall lbs ss pos pr, length lbs = length ss ->
+  block_sum lbs ss pos pr = mul pr (prodsum lbs).
+Proof.
+  intro H1. induction lbs as [|lb lbs IH]; intros ss pos pr Hlen.
+  - destruct ss; [|discriminate]. cbn [block_sum prodsum]. rewrite H1. reflexivity.
+  - destruct ss as [|s ss]; [discriminate|]. cbn [block_sum prodsum].
+    rewrite (lsum_ext _ (fun l _ => mul (mul pr l) (prodsum lbs))) by (intros l p; apply IH; cbn [length] in Hlen; lia).
+    apply lsum_factor.
+Qed.
 
 (* ---------------------------------------------------------------------------------------------- *)
 (* the inner chunk *)
